@@ -234,8 +234,11 @@ class _Continue(Exception):
 # ----------------------------------------------------------------------------------
 
 
+OVERLAY: Dict[str, str] = {}  # module name -> mutated source (canaries only)
+
+
 class Repo:
-    """Reads the current working tree of /repo."""
+    """Reads the current working tree of /repo (plus the in-memory canary overlay)."""
 
     def __init__(self, root: str = REPO):
         self.root = root
@@ -254,7 +257,7 @@ class Repo:
             p = self.module_path(modname)
             if p is None:
                 raise OutOfReach(f"repo module {modname} not found")
-            src = open(p).read()
+            src = OVERLAY.get(modname) or open(p).read()
             self.cache[modname] = (src, ast.parse(src, p))
         return self.cache[modname]
 
